@@ -91,12 +91,12 @@ Proof.
 Qed.
 Lemma noill_enc_domain_name n : noill (enc_domain_name n).
 Proof. unfold enc_domain_name. apply noill_bind; [intros s; exact I|]. intros _. apply noill_enc_name_loop. Qed.
-Lemma noill_rr_address_with_prefix a p : noill (rr_address_with_prefix a p).
+Lemma noill_rr_address_with_length a m : noill (rr_address_with_length a m).
 Proof.
-  destruct (rr_address_with_prefix_put a p) as (b & H).
+  destruct (rr_address_with_length_put a m) as (b & H).
   apply (noill_pointwise (put b)); [intros s; symmetry; apply H|apply noill_put].
 Qed.
-#[export] Hint Resolve noill_enc_domain_name noill_rr_address_with_prefix : noilldb.
+#[export] Hint Resolve noill_enc_domain_name noill_rr_address_with_length : noilldb.
 
 Lemma noill_enc_edns_option o : noill (enc_edns_option o).
 Proof.
